@@ -207,6 +207,14 @@ class Case:
                 tr = [t for t in loop.transports if t.local_addr[0] == "0.0.0.0" and not t.closed]
                 if not tr:
                     self.fail("I1", "exit_socket", "no outside socket was opened by the opener packet")
+                if c.get("retiring") and not fault:
+                    # the exit is retiring this exit socket (as its inactivity sweep does): for remove_tunnel_delay seconds
+                    # the outside socket stays open, and what still arrives on it must be carried like any other data
+                    exit_node = path[-1]
+                    for xcid in list(exit_node.overlay.exit_sockets):
+                        exit_node.overlay.register_anonymous_task("pv-retire", exit_node.overlay.remove_exit_socket,
+                                                                  xcid, "retiring (check)")
+                    await asyncio.sleep(0.1)
                 tr[0].inject(payload, outside)
             elif kind == "ping":
                 origin.overlay.do_ping()
@@ -228,7 +236,9 @@ class Case:
 
             body_hit = state["hit"] is not None and (state["hit"][0] in ("splice", "swapcid") or
                                                      state["hit"][1] >= CELL_HDR)
-            info["cls"] = "%dhop/%s/%s/%s" % (hops, kind + ("_nested" if nested else "_te" if te else ""), size_class(size),
+            info["cls"] = "%dhop/%s/%s/%s" % (hops, kind + ("_nested" if nested else "_te" if te else "") +
+                                              ("_retiring" if c.get("retiring") and kind == "data_in" and not fault else ""),
+                                              size_class(size),
                                               "none" if not fault else fault["type"])
             info["nontrivial"] = (size >= 8 and not fault) or body_hit or bool(fault and fault["type"] == "inject")
             info["desc"] = (hops, kind, size_class(size), None if not fault else
@@ -605,6 +615,7 @@ def _strategy():
         "shape": st.sampled_from(["bt", "ipv8"]),
         "nested": st.sampled_from([0, 0, 1]),
         "te": st.sampled_from([0, 0, 1]),
+        "retiring": st.sampled_from([0, 0, 1]),
         "dest": st.sampled_from([["5.5.5.5", 5555], ["2001:db8::5", 5555], ["5.6.7.8", 1]]),
         "resp": st.integers(0, 600),
         "fault": fault,
